@@ -22,11 +22,41 @@ DEFS = ["bold red", "green", "italic #ff8800 on black", "underline", "dim color(
 CUSTOM = ["warning", "info", "danger", "repr.number", "rule.line", "x.y", "bold"]
 
 
+ATTRS = ["bold", "dim", "italic", "underline", "blink", "blink2", "reverse", "conceal", "strike", "underline2", "frame", "encircle", "overline"]
+
+
+def gen_def(rng):
+    """A style definition from the whole style space: 13 tri-state attributes, default / named /
+    indexed / 24-bit colours, optional link (no '%': configparser would interpolate it)."""
+    if rng.random() < 0.5:
+        return rng.choice(DEFS)
+    parts = []
+    for a in ATTRS:
+        r = rng.random()
+        if r < 0.1:
+            parts.append(a)
+        elif r < 0.15:
+            parts.append("not " + a)
+    for prefix in ("", "on "):
+        r = rng.random()
+        if r < 0.15:
+            parts.append(prefix + rng.choice(["red", "bright_blue", "default", "black", "grey50", "dark_orange3"]))
+        elif r < 0.3:
+            parts.append(prefix + "color(%d)" % rng.randrange(256))
+        elif r < 0.45:
+            parts.append(prefix + "#%02x%02x%02x" % (rng.randrange(256), rng.randrange(256), rng.randrange(256)))
+        elif r < 0.5:
+            parts.append(prefix + "rgb(%d,%d,%d)" % (rng.randrange(256), rng.randrange(256), rng.randrange(256)))
+    if rng.random() < 0.1:
+        parts.append("link https://example.org/x?a=1&b=%d" % rng.randrange(9))
+    return " ".join(parts) or "none"
+
+
 def gen_theme(rng):
     n = rng.randint(0, 4)
     styles = {}
     for name in rng.sample(CUSTOM, n):
-        styles[name] = rng.choice(DEFS)
+        styles[name] = gen_def(rng)
     return {"styles": styles, "inherit": rng.random() < 0.7}
 
 
@@ -75,7 +105,7 @@ class C20:
         # and `with console.use_theme(theme)` in a loop does)
         pool = [gen_theme(rng) for _ in range(4)]
         return {"ops": ops, "live": rng.random() < 0.25, "base_theme": gen_theme(rng) if rng.random() < 0.3 else None,
-                "pool": pool, "config_themes": [0, 1]}
+                "pool": pool, "config_themes": [0, 1, 2, 3]}
 
     def setup(self, sim, case, env):
         return Prog(sim, case, env)
